@@ -143,6 +143,25 @@ def count_sweep(tier):
     return out
 
 
+def run_sweep(tier):
+    """Run-length sweeps: ONE structural character repeated n times behind a key, behind a delimiter, in front of an entry - for
+    every n across the growth steps of the line buffer (getline starts at 120 bytes and doubles), with and without the final
+    newline, under plain / blank / mixed delimiter sets: the places where 'the rest of the line' is empty, all blanks, or ends
+    exactly at the end of the allocation."""
+    ns = list(range(0, 8)) + [n + d for n in (120, 240, 480, 960, 1920, 3840, 7680) for d in (-4, -3, -2, -1, 0, 1, 2)] + [8190, 8191, 8192, 8193]
+    if tier == "thorough":
+        ns = sorted(set(ns + list(range(0, 260))))
+    out = []
+    for c in (b" ", b"\t", b"=", b"#", b'"', b"[", b"]", b":", b";"):
+        for n in ns:
+            run = c * n
+            for data in (b"k" + run, b"k=" + run, b"k " + run, run + b"k=v", b"a=1\nk" + run, b"[s]" + run):
+                for nl in (b"", b"\n"):
+                    for d, cm, m in ((" =", "#", 0), ("=", "#;", 0), (" \t", "#", 0)):
+                        out.append((data + nl, d, cm, m))
+    return out
+
+
 def check_c04(exe, tier, seed, verdict):
     rnd = random.Random(seed)
     inputs = []
@@ -183,6 +202,9 @@ def check_c04(exe, tier, seed, verdict):
     ncount = len(inputs)
     inputs += count_sweep(tier)
     ncount = len(inputs) - ncount
+    nrun = len(inputs)
+    inputs += run_sweep(tier)
+    nrun = len(inputs) - nrun
     events, n_ok, n_parse, crashes = run_env(exe, inputs, verdict)
     ok, tr, _ = core.validate_trace("Envelope", os.path.join(core.SPEC, "Envelope.cfg"), events, timeout=600)
     mism = [x for x in tr.json_lines() if "mismatch" in x]
@@ -194,8 +216,8 @@ def check_c04(exe, tier, seed, verdict):
             continue          # reported above with the failing input
         verdict.violation("C04:envelope:%s" % e["rc"], {"kind": "class", "event": e}, "outside the envelope: %s (%d inputs)" % (json.dumps(e), e["n"]))
     cov = {"evaluations": len(inputs), "distinct_nontrivial": n_ok + n_parse,
-           "rule": "every byte string of length <= %d over the %d-symbol structural alphabet (blank, tab, newline, = : # ; \" [ ] a 1, NUL, 0xff): %d strings with delimiter '=' comment '#', a sample with the other parameter sets (blank / mixed / no delimiters, JOIN_SAME_ENTRIES, PYTHON_STYLE); %d byte-level mutations (insert/delete/replace/truncate, 1-3 edits) of random conventional files of all grammars; random byte strings; very long lines of structural characters around BUFSIZ; %d cardinality sweeps (every count 0..%d, and around 128/256/512/1024, of: distinct sections with 0/1/2 keys, keys without / in one section, repetitions of one key, continuation lines, comment lines, keys without delimiter, re-opened sections - the counts at which the object's arrays and lists grow). Each input: read; on success every listing, 17 getter calls on every key, 4 merges, write, re-read. Aggregated event classes validated by Envelope.tla; ASan/UBSan abort = violation with the input. non-trivial = read succeeded with >= 1 entry (%d) or failed with a parse error (%d)." % (
-               maxlen, len(alpha), nstr, nmut, ncount, 72 if tier == "quick" else 300, n_ok, n_parse),
+           "rule": "every byte string of length <= %d over the %d-symbol structural alphabet (blank, tab, newline, = : # ; \" [ ] a 1, NUL, 0xff): %d strings with delimiter '=' comment '#', a sample with the other parameter sets (blank / mixed / no delimiters, JOIN_SAME_ENTRIES, PYTHON_STYLE); %d byte-level mutations (insert/delete/replace/truncate, 1-3 edits) of random conventional files of all grammars; random byte strings; very long lines of structural characters around BUFSIZ; %d cardinality sweeps (every count 0..%d, and around 128/256/512/1024, of: distinct sections with 0/1/2 keys, keys without / in one section, repetitions of one key, continuation lines, comment lines, keys without delimiter, re-opened sections - the counts at which the object's arrays and lists grow); %d run-length sweeps (one structural character repeated n times behind a key / a delimiter / a header or in front of an entry, n across the growth steps 120, 240, ... 7680, 8192 of the line buffer, with and without final newline, plain / blank / mixed delimiter sets). Each input: read; on success every listing, 17 getter calls on every key, 4 merges, write, re-read. Aggregated event classes validated by Envelope.tla; ASan/UBSan abort = violation with the input. non-trivial = read succeeded with >= 1 entry (%d) or failed with a parse error (%d)." % (
+               maxlen, len(alpha), nstr, nmut, ncount, 72 if tier == "quick" else 300, nrun, n_ok, n_parse),
            "samples": events[:4], "exhaustive": False, "event_classes": len(events), "crashing_inputs": crashes,
            "trusted_base": ["gcc ASan/UBSan", "driver watchdog (20 s alarm per case)", "TLC 1.8.0 (envelope classes)"]}
     return cov
